@@ -1,16 +1,76 @@
-From Coq Require Import List NArith String Bool.
+From Coq Require Import List NArith ZArith String Bool.
 Import ListNotations.
 From TV Require Import Lib.Obs C45.Model.
 
-(* input: (prefix, message, suffix, exc_text) *)
-Definition run_case (c : list N * list N * list N * list N) : obs :=
-  let '(p, m, s, e) := c in
-  OBytes (format {| prefix := p; message := m; suffix := s; exc_text := e |}).
+(* one correspondence case: a call of LogFormatter.format, or a direct call of _safe_unicode *)
+Inductive case_input :=
+| CFormat (i : log_input)
+| CSafeUnicode (v : pyval).
 
-(* the property on the implementation's output: it returned a string (did not
-   raise) in which every newline is followed by four spaces *)
-Definition check_case (c : list N * list N * list N * list N) (o : obs) : bool :=
-  match o with
-  | OBytes out => nl_indented out
-  | _ => false
+Definition obs_raised (c : exc_class) : obs := OList [OTag "Raised"; OTag (exc_name c)].
+Definition obs_unsupported : obs := OList [OTag "Unsupported"].
+
+(* format: [returned string; record.exc_text afterwards]   or   [Raised; class] *)
+Definition run_case (c : case_input) : obs :=
+  match c with
+  | CFormat i =>
+      match format i with
+      | Returned (out, et) =>
+          OList [OBytes out; match et with Some t => OBytes t | None => ONone end]
+      | Raised c _ => obs_raised c
+      | Unsupported => obs_unsupported
+      end
+  | CSafeUnicode v =>
+      match safe_unicode v with
+      | Returned (PStr t) => OList [OTag "str"; OBytes t]
+      | Returned PNone => ONone
+      | Returned _ => obs_unsupported
+      | Raised c _ => obs_raised c
+      | Unsupported => obs_unsupported
+      end
+  end.
+
+(* ---- the property on the implementation's observable ---- *)
+
+Definition repr_ok (r : repr_res) : bool := match r with ReprOk _ => true | _ => false end.
+Definition is_returned {A} (o : outcome A) : bool := match o with Returned _ => true | _ => false end.
+
+(* The records the statement speaks about: everything the formatter is handed is a
+   well-behaved oracle except the message —
+   * getMessage() returns anything, or raises any subclass of Exception
+     (a BaseException such as KeyboardInterrupt must propagate);
+   * repr() of the exception and of the record's fields does not itself raise;
+   * formatException returns, when it is called;
+   * the format string fits the record's fields (every key present, %d only on ints):
+     decided on the record with an empty message, the message's text never matters for that
+     (Proofs: percent_shape). *)
+Definition in_domain (i : log_input) : bool :=
+  match in_getmsg i with
+  | GMReturn (POther ty) => forallb plain_char ty
+  | GMReturn _ => true
+  | GMRaise c r => is_subclass c EException && repr_ok r
+  end
+  && repr_ok (in_dict_repr i)
+  && (negb (in_exc_info i && negb (truthy (in_exc_text i))) || is_returned (in_format_exc i))
+  && is_returned (percent_format (in_fmt i) (format_env i (VStr []))).
+
+(* format returned a string (did not raise) in which every newline is followed by four
+   spaces; a raise is acceptable only for a record outside the domain above.
+   _safe_unicode: the same str for a str, a str for bytes in which a newline can only come
+   from a newline byte, None for None; only another type may raise. *)
+Definition check_case (c : case_input) (o : obs) : bool :=
+  match c with
+  | CFormat i =>
+      match o with
+      | OList [OBytes out; _] => nl_indented out
+      | _ => negb (in_domain i)
+      end
+  | CSafeUnicode v =>
+      match v, o with
+      | PStr t, OList [OTag _; OBytes t'] => text_eqb t t'
+      | PBytes b, OList [OTag _; OBytes t'] => negb (has_nl t') || has_nl b
+      | PNone, ONone => true
+      | POther _, _ => true
+      | _, _ => false
+      end
   end.
